@@ -11,11 +11,21 @@ Definition cid := nat.   (* one run_sync call = one caller task = one thread fun
 Definition wid := nat.   (* worker threads, numbered in creation order *)
 
 (* what the function did in the thread *)
-Inductive payload := PVal (v : nat) | PExn (e : nat) | PStopIter.
-(* what _report_result stores in the future: StopIteration is wrapped in RuntimeError *)
-Inductive outcome := OVal (v : nat) | OExn (e : nat) | ORuntime.
+Inductive payload :=
+| PVal (v : nat) | PExn (e : nat) | PStopIter
+| PCancelled          (* the function raised CancelledError (e.g. let from_thread.check_cancelled()'s exception propagate) *)
+| PBase (e : nat).    (* a BaseException subclass that is not an Exception *)
+(* what run_sync hands to the caller.  _report_result stores the payload in the future; StopIteration is wrapped in
+   RuntimeError (PEP 479 - a deliberate deviation from "raises exactly the exception of the function") *)
+Inductive outcome :=
+| OVal (v : nat) | OExn (e : nat) | ORuntime
+| OCancelled          (* the function's own CancelledError, re-raised by `await future` *)
+| OBase (e : nat)
+| OSpawn.             (* RuntimeError of Thread.start(): no thread function was ever run *)
 Definition wrap (p : payload) : outcome :=
-  match p with PVal v => OVal v | PExn e => OExn e | PStopIter => ORuntime end.
+  match p with
+  | PVal v => OVal v | PExn e => OExn e | PStopIter => ORuntime | PCancelled => OCancelled | PBase e => OBase e
+  end.
 
 Inductive fstate := FPending | FRes (o : outcome) | FCancelled.
 
@@ -48,9 +58,12 @@ Record call := mkc {
   ph : phase;
   fut : fstate;                (* the asyncio.Future of the call *)
   evset : bool;                (* limiter wait: the Event was set (token granted while queued) *)
-  wcanc : bool;                (* limiter wait: the waiter future of event.wait() was cancelled *)
+  wcanc : bool;                (* a CancelledError will be thrown into the caller when it resumes: the waiter future
+                                  of event.wait() was cancelled, or (native Task.cancel() only) Task._must_cancel *)
   fin : option payload;        (* ghost: payload of the ThreadFinish of this call's function *)
-  ranon : option wid           (* ghost: worker the call was handed to *)
+  ranon : option wid;          (* ghost: worker the call was handed to *)
+  ncr : bool;                  (* ghost: the caller was natively cancelled (Task.cancel()) while inside the call scope *)
+  sfail : bool                 (* oracle bit used by the codec only: Thread.start() will fail for this call *)
 }.
 
 Record st := mk {
@@ -76,17 +89,26 @@ Inductive op :=
 | ThreadFinish (w : wid) (p : payload)  (* _report_result of worker w runs in the loop *)
 | ThreadCheckCancelled (w : wid)     (* the function running on w calls from_thread.check_cancelled() *)
 | SetTotal (n : nat)                 (* limiter.total_tokens = n *)
-| ThreadReturn (w : wid).            (* the payload-less _report_result of a skipped (already cancelled) item runs in the
+| ThreadReturn (w : wid)             (* the payload-less _report_result of a skipped (already cancelled) item runs in the
                                         loop: the worker goes back to the idle deque, the future stays cancelled *)
+| NativeCancel (c : cid)             (* asyncio Task.cancel() on the caller task (asyncio.timeout, wait_for, loop shutdown):
+                                        NOT filtered by AnyIO shields.  Accepted while the caller is suspended in the
+                                        limiter's shielded checkpoint, in the limiter's wait queue, or on the future *)
+| SpawnFail (c : cid)                (* the caller's segment that would start a new worker thread runs, and
+                                        Thread.start() raises RuntimeError *)
+| ThreadRunAsync (w : wid)           (* the function running on w calls from_thread.run(coro) with a coroutine that
+                                        really waits: is that coroutine's task cancelled? *)
+| ArmSpawnFail (c : cid).            (* codec helper (no effect on anything but the `sfail` bit of a call not yet made) *)
 
 Inductive res :=
 | RNone | RBlocked | RDone
 | RRet (o : outcome)     (* run_sync returned the value / raised the exception *)
 | RCancelled             (* CancelledError out of the segment *)
 | RCC (b : bool)         (* check_cancelled: true = raised *)
+| RRT (b : bool)         (* from_thread.run(awaiting coro): true = its task was cancelled (CancelledError in the thread) *)
 | RRejected.
 
-Definition init_call : call := mkc false [] PNone FPending false false None None.
+Definition init_call : call := mkc false [] PNone FPending false false None None false false.
 
 Definition init (tot : nat) (pr : bool) : st :=
   mk tot [] [] pr [] 0 (fun _ => WFree) (fun _ => init_call) [] false.
@@ -119,15 +141,15 @@ Definition set_lim (s : st) (b q : list cid) : st :=
   mk (total s) b q (prune s) (idle s) (nwork s) (wk s) (calls s) (exec s) (lowered s).
 
 Definition c_ph (k : call) (p : phase) : call :=
-  mkc (abandon k) (chain k) p (fut k) (evset k) (wcanc k) (fin k) (ranon k).
+  mkc (abandon k) (chain k) p (fut k) (evset k) (wcanc k) (fin k) (ranon k) (ncr k) (sfail k).
 Definition c_fut (k : call) (f : fstate) : call :=
-  mkc (abandon k) (chain k) (ph k) f (evset k) (wcanc k) (fin k) (ranon k).
+  mkc (abandon k) (chain k) (ph k) f (evset k) (wcanc k) (fin k) (ranon k) (ncr k) (sfail k).
 Definition c_ev (k : call) (b : bool) : call :=
-  mkc (abandon k) (chain k) (ph k) (fut k) b (wcanc k) (fin k) (ranon k).
+  mkc (abandon k) (chain k) (ph k) (fut k) b (wcanc k) (fin k) (ranon k) (ncr k) (sfail k).
 Definition c_wc (k : call) (b : bool) : call :=
-  mkc (abandon k) (chain k) (ph k) (fut k) (evset k) b (fin k) (ranon k).
+  mkc (abandon k) (chain k) (ph k) (fut k) (evset k) b (fin k) (ranon k) (ncr k) (sfail k).
 Definition c_chain (k : call) (l : list (bool * bool)) : call :=
-  mkc (abandon k) l (ph k) (fut k) (evset k) (wcanc k) (fin k) (ranon k).
+  mkc (abandon k) l (ph k) (fut k) (evset k) (wcanc k) (fin k) (ranon k) (ncr k) (sfail k).
 
 Definition set_ph (s : st) (c : cid) (p : phase) : st :=
   set_calls s (upd (calls s) c (c_ph (calls s c) p)).
@@ -169,14 +191,14 @@ Definition enter_scope (s : st) (c : cid) : st :=
   | [] =>
       let w := nwork s in
       mk (total s) (lb s) (lq s) (prune s) [] (S w) (upd (wk s) w (WQueued c))
-         (upd (calls s) c (mkc (abandon k) (chain k) (PAwait w) FPending (evset k) (wcanc k) (fin k) (Some w)))
+         (upd (calls s) c (mkc (abandon k) (chain k) (PAwait w) FPending (evset k) (wcanc k) (fin k) (Some w) (ncr k) (sfail k)))
          (exec s) (lowered s)
   | w :: rest =>
       let wk1 := upd (wk s) w (WQueued c) in
       mk (total s) (lb s) (lq s) (prune s)
          (if prune s then [] else rest) (nwork s)
          (if prune s then stop_all rest wk1 else wk1)
-         (upd (calls s) c (mkc (abandon k) (chain k) (PAwait w) FPending (evset k) (wcanc k) (fin k) (Some w)))
+         (upd (calls s) c (mkc (abandon k) (chain k) (PAwait w) FPending (evset k) (wcanc k) (fin k) (Some w) (ncr k) (sfail k)))
          (exec s) (lowered s)
   end.
 
@@ -196,6 +218,38 @@ Definition deliver (s : st) (c : cid) : st :=
       else s    (* shielded call scope *)
   | _ => s      (* sleep(0)-suspensions: the cancellation is seen when the task resumes; shielded yield: never *)
   end.
+
+(* asyncio Task.cancel() on the caller (not an AnyIO cancellation: no shield is consulted) *)
+Definition native_cancel (k : call) : option call :=
+  match ph k with
+  | PLimYield => Some (c_wc k true)                 (* sleep(0): _must_cancel *)
+  | PWaitLim => Some (c_wc k true)                  (* waiter future cancelled, or done already: _must_cancel *)
+  | PAwait _ =>
+      let k1 := mkc (abandon k) (chain k) (ph k) (fut k) (evset k) (wcanc k) (fin k) (ranon k) true (sfail k) in
+      match fut k with
+      | FPending => Some (c_fut k1 FCancelled)      (* future.cancel(): abandon_on_cancel is not looked at *)
+      | _ => Some (c_wc k1 true)
+      end
+  | _ => None
+  end.
+
+(* the segment that would start a new worker thread *)
+Definition can_spawn (s : st) (k : call) : bool :=
+  andb (match idle s with [] => true | _ => false end)
+       (match ph k with
+        | PLimYield => negb (wcanc k)
+        | PWaitLim => andb (evset k) (negb (wcanc k))
+        | _ => false
+        end).
+
+(* is the caller still inside the call scope? *)
+Definition inside (k : call) : bool := match ph k with PAwait _ => true | _ => false end.
+
+(* The scope chain a from_thread.run() task of this thread is subject to: the handed scope, then its VISIBLE parents.
+   A scope that has been exited is no longer linked to its parent (`_visible_parent_scope`, fix 1940035/F42): once the
+   caller has left, only the handed scope's own cancel_called flag counts. *)
+Definition handed_visible (k : call) : list (bool * bool) :=
+  if inside k then handed k else firstn 1 (handed k).
 
 Definition runnable (k : call) : bool :=
   match ph k with
@@ -218,7 +272,7 @@ Definition step (s : st) (o : op) : st * res :=
       match ph k with
       | PNone =>
           (set_calls s (upd (calls s) c
-             (mkc ab (chain k) PEntryCk FPending false false None None)), RBlocked)
+             (mkc ab (chain k) PEntryCk FPending false false None None false (sfail k))), RBlocked)
       | _ => (s, RRejected)
       end
   | Resume c =>
@@ -230,7 +284,7 @@ Definition step (s : st) (o : op) : st * res :=
                       (Nat.leb (total s) (length (lb s)))
           then (* WouldBlock: enqueue and wait *)
             (set_calls (set_lim s (lb s) (lq s ++ [c]))
-               (upd (calls s) c (mkc (abandon k) (chain k) PWaitLim (fut k) false false (fin k) (ranon k))), RBlocked)
+               (upd (calls s) c (mkc (abandon k) (chain k) PWaitLim (fut k) false false (fin k) (ranon k) (ncr k) (sfail k))), RBlocked)
           else (set_ph (set_lim s (c :: lb s) (lq s)) c PLimYield, RBlocked)
       | PWaitLim =>
           if wcanc k then
@@ -240,12 +294,24 @@ Definition step (s : st) (o : op) : st * res :=
             (set_ph s2 c (PDone DCancelled), RCancelled)
           else if evset k then (enter_scope s c, RBlocked)
           else (s, RRejected)
-      | PLimYield => (enter_scope s c, RBlocked)
+      | PLimYield =>
+          (* native cancellation only: `except BaseException: self.release_on_behalf_of(borrower); raise` *)
+          if wcanc k then (set_ph (release s c) c (PDone DCancelled), RCancelled)
+          else (enter_scope s c, RBlocked)
       | PAwait w =>
           match fut k with
           | FPending => (s, RRejected)
           | FCancelled => (set_ph (release s c) c (PDone DCancelled), RCancelled)
-          | FRes o => (set_ph (release s c) c (PPostCk o), RRet o)
+          | FRes o =>
+              if wcanc k then
+                (* Task._must_cancel (native): CancelledError instead of the result that already sits in the future *)
+                (set_ph (release s c) c (PDone DCancelled), RCancelled)
+              else match o with
+                   | OCancelled =>
+                       (* the function's CancelledError propagates like a cancellation: no further statement runs *)
+                       (set_ph (release s c) c (PDone (DRet OCancelled false)), RRet OCancelled)
+                   | _ => (set_ph (release s c) c (PPostCk o), RRet o)
+                   end
           end
       | PPostCk o =>
           let b := walk (chain k) in
@@ -280,7 +346,7 @@ Definition step (s : st) (o : op) : st * res :=
           let k := calls s c in
           let k1 := mkc (abandon k) (chain k) (ph k)
                         (match fut k with FPending => FRes (wrap p) | f => f end)
-                        (evset k) (wcanc k) (Some p) (ranon k) in
+                        (evset k) (wcanc k) (Some p) (ranon k) (ncr k) (sfail k) in
           (mk (total s) (lb s) (lq s) (prune s) (w :: idle s) (nwork s) (upd (wk s) w WFree)
               (upd (calls s) c k1) (remove_c c (exec s)) (lowered s), RNone)
       | _ => (s, RRejected)
@@ -299,6 +365,27 @@ Definition step (s : st) (o : op) : st * res :=
       | WSkip =>
           (mk (total s) (lb s) (lq s) (prune s) (w :: idle s) (nwork s) (upd (wk s) w WFree) (calls s)
               (exec s) (lowered s), RNone)
+      | _ => (s, RRejected)
+      end
+  | NativeCancel c =>
+      match native_cancel (calls s c) with
+      | Some k1 => (set_calls s (upd (calls s) c k1), RNone)
+      | None => (s, RRejected)
+      end
+  | SpawnFail c =>
+      if can_spawn s (calls s c) then (set_ph (release s c) c (PPostCk OSpawn), RRet OSpawn)
+      else (s, RRejected)
+  | ThreadRunAsync w =>
+      match wk s w with
+      | WExec c => (s, RRT (walk (handed_visible (calls s c))))
+      | _ => (s, RRejected)
+      end
+  | ArmSpawnFail c =>
+      let k := calls s c in
+      match ph k with
+      | PNone =>
+          (set_calls s (upd (calls s) c
+             (mkc (abandon k) (chain k) (ph k) (fut k) (evset k) (wcanc k) (fin k) (ranon k) (ncr k) true)), RNone)
       | _ => (s, RRejected)
       end
   end.
@@ -326,6 +413,18 @@ Definition is_cancelled (f : fstate) : bool := match f with FCancelled => true |
 Definition live (s : st) (c : cid) : bool := negb (is_cancelled (fut (calls s c))).
 Definition running_live (s : st) : list cid := filter (live s) (exec s).
 
+(* functions executing on behalf of a call made with abandon_on_cancel=False (whatever happened to the caller since) *)
+Definition running_nonabandon (s : st) : list cid := filter (fun c => negb (abandon (calls s c))) (exec s).
+
+(* boolean restriction on op sequences: no native Task.cancel() hits a caller that is inside the call scope *)
+Fixpoint no_native_cancel_while_running (s : st) (ops : list op) : bool :=
+  match ops with
+  | [] => true
+  | o :: r =>
+      andb (match o with NativeCancel c => negb (inside (calls s c)) | _ => true end)
+           (no_native_cancel_while_running (fst (step s o)) r)
+  end.
+
 (* between acquire and release of the limiter token *)
 Definition holds (k : call) : bool :=
   match ph k with
@@ -337,7 +436,8 @@ Definition holds (k : call) : bool :=
 (* ================= codec ================= *)
 (* case = total :: prune :: ncalls :: auto :: ops, each op = 4 integers [code; a; b; c].
    Codes: 0 Scope c sh | 1 Call c ab | 2 Resume c | 3 CancelCaller c i | 4 Deliver c | 5 StartCall c (ThreadStart of the
-   worker holding c's item) | 6 FinishCall c kind v | 7 CheckCancelledCall c | 8 SetTotal n | 9 ThreadReturn w.
+   worker holding c's item) | 6 FinishCall c kind v | 7 CheckCancelledCall c | 8 SetTotal n | 9 ThreadReturn w |
+   10 NativeCancel c | 11 ArmSpawnFail c | 12 RunAsyncCall c | 13 SpawnFail c.
    Thread ops name the call; the codec looks up the worker.  With auto = 1 every scripted op is followed by `settle`
    (everything the loop and the threads do on their own until quiescence), which is what the harness can observe
    with real threads.  Output: per op 8 integers, then per call 4 integers
@@ -349,10 +449,12 @@ Definition find_worker (s : st) (c : cid) (queued : bool) : option wid :=
                  | WExec d => andb (negb queued) (Nat.eqb d c)
                  | _ => false end) (seq 0 (nwork s)).
 
-Definition kind_payload (kind v : Z) : payload :=
+Definition kind_payload (k : call) (kind v : Z) : payload :=
   match kind with
   | 1 => PExn (zn v)
   | 2 => PStopIter
+  | 6 => if walk (handed k) then PCancelled else PVal (zn v)   (* the function lets check_cancelled()'s error propagate *)
+  | 7 => PBase (zn v)
   | _ => PVal (zn v)     (* 0 plain return; 3,4,5: value obtained through from_thread.run / run_sync / a contextvar *)
   end%Z.
 
@@ -365,18 +467,26 @@ Definition do_op (s : st) (code a b c : Z) : st * res :=
   | 4 => step s (Deliver (zn a))
   | 5 => match find_worker s (zn a) true with Some w => step s (ThreadStart w) | None => (s, RRejected) end
   | 6 => match find_worker s (zn a) false with
-         | Some w => step s (ThreadFinish w (kind_payload b c)) | None => (s, RRejected) end
+         | Some w => step s (ThreadFinish w (kind_payload (calls s (zn a)) b c)) | None => (s, RRejected) end
   | 7 => match find_worker s (zn a) false with
          | Some w => step s (ThreadCheckCancelled w) | None => (s, RRejected) end
   | 8 => step s (SetTotal (zn a))
   | 9 => step s (ThreadReturn (zn a))
+  | 10 => step s (NativeCancel (zn a))
+  | 11 => step s (ArmSpawnFail (zn a))
+  | 12 => match find_worker s (zn a) false with
+          | Some w => step s (ThreadRunAsync w) | None => (s, RRejected) end
+  | 13 => step s (SpawnFail (zn a))
   | _ => (s, RRejected)
   end%Z.
 
 (* one round of everything that happens without the harness: runnable callers resume, queued items are dequeued,
    pending cancellations are delivered *)
 Definition settle_round (n : nat) (s : st) : st :=
-  let s1 := fold_left (fun s c => if runnable (calls s c) then fst (step s (Resume c)) else s) (seq 0 n) s in
+  let s1 := fold_left (fun s c => if runnable (calls s c)
+                                  then (if andb (sfail (calls s c)) (can_spawn s (calls s c))
+                                        then fst (step s (SpawnFail c)) else fst (step s (Resume c)))
+                                  else s) (seq 0 n) s in
   let s2 := fold_left (fun s w => match wk s w with
                                   | WQueued _ => fst (step s (ThreadStart w))
                                   | WSkip => fst (step s (ThreadReturn w))
@@ -398,6 +508,8 @@ Definition res_code (r : res) : Z * Z :=
   | RDone => (0, 0) | RBlocked => (1, 0) | RCancelled => (2, 0) | RNone => (5, 0)
   | RRet (OVal v) => (10, nz v) | RRet (OExn e) => (11, nz e) | RRet ORuntime => (12, 0)
   | RCC b => (6, bz b)
+  | RRT b => (7, bz b)
+  | RRet OCancelled => (13, 0) | RRet (OBase e) => (14, nz e) | RRet OSpawn => (15, 0)
   | RRejected => (9, 0)
   end%Z.
 
@@ -432,6 +544,9 @@ Definition final_obs (s : st) (pv : cid -> Z) (c : cid) : list Z :=
    | PDone (DRet (OVal v) p) => [0; nz v; bz p]
    | PDone (DRet (OExn e) p) => [3; nz e; bz p]
    | PDone (DRet ORuntime p) => [4; 0; bz p]
+   | PDone (DRet OCancelled p) => [5; 0; bz p]
+   | PDone (DRet (OBase e) p) => [6; nz e; bz p]
+   | PDone (DRet OSpawn p) => [9; 0; bz p]
    | _ => [7; 0; 0]
    end ++ [match ranon k with Some _ => pv c | None => (-1) end])%Z.
 
